@@ -811,10 +811,31 @@ fn check_zone_tree() {
     let mut tree = ZoneTree::new();
     let mut present: BTreeSet<(String, bool)> = BTreeSet::new(); // (apex, is CH)
     let n = 1 + sim::draw("tree.n_zones", 6);
+    // Insertions and, now and then, removals (of zones that are there and of
+    // zones that are not) in a drawn order.
     for _ in 0..n {
         let apex = *sim::pick("tree.apex", &APEXES);
         let ch = sim::chance("tree.class_ch", 1, 6);
         let class = if ch { Class::CH } else { Class::IN };
+        if !present.is_empty() && sim::chance("tree.remove", 1, 4) {
+            // Usually one that is there.
+            let (apex, ch) = if sim::chance("tree.remove_absent", 1, 4) {
+                (apex.to_string(), ch)
+            } else {
+                let v: Vec<&(String, bool)> = present.iter().collect();
+                v[sim::draw("tree.remove_which", v.len() as u64) as usize].clone()
+            };
+            let class = if ch { Class::CH } else { Class::IN };
+            let res = tree.remove_zone(&stored_name(&apex), class);
+            let was = present.remove(&(apex.clone(), ch));
+            ev!("tree remove {} {:?} -> {:?}", apex, class, res.is_ok());
+            sim::stat("probe.zone_tree_zone_removed");
+            if res.is_ok() != was {
+                sim::violation(P8, "zone-tree", "remove-zone-result".to_string(), format!("remove_zone({} {:?}) returned {:?}, zone was {} present", apex, class, res.is_ok(), if was { "" } else { "not" }));
+                return;
+            }
+            continue;
+        }
         let zone = ZoneBuilder::new(stored_name(apex), class).build();
         let res = tree.insert_zone(zone);
         ev!("tree insert {} {:?} -> {:?}", apex, class, res.is_ok());
@@ -824,10 +845,24 @@ fn check_zone_tree() {
             return;
         }
     }
-    // (`ZoneTree::remove_zone` is left alone: as pinned it drops every zone
-    // of the class - it removes the child of the first label on the way down,
-    // which is always the root label - an observation outside C08, see
-    // DESIGN section 6.)
+    // The tree holds exactly the zones put in and not taken out again.
+    let mut listed: Vec<(String, bool)> = tree.iter_zones().map(|z| (owner_str(z.apex_name()), z.class() == Class::CH)).collect();
+    listed.sort();
+    let want_listed: Vec<(String, bool)> = present.iter().cloned().collect();
+    if listed != want_listed {
+        sim::violation(P8, "zone-tree", "iter-zones-wrong".to_string(), format!("iter_zones() lists {:?}, the tree should hold {:?}", listed, want_listed));
+        return;
+    }
+    for apex in APEXES {
+        for ch in [false, true] {
+            let got = tree.get_zone(&stored_name(apex), if ch { Class::CH } else { Class::IN }).map(|z| owner_str(z.apex_name()));
+            let want = present.contains(&(apex.to_string(), ch)).then(|| apex.to_string());
+            if got != want {
+                sim::violation(P8, "zone-tree", "get-zone-wrong".to_string(), format!("zones {:?}: get_zone({} {}) gave {:?}, expected {:?}", present, apex, if ch { "CH" } else { "IN" }, got, want));
+                return;
+            }
+        }
+    }
     sim::stat("probe.zone_tree_checked");
     let mut probes: Vec<String> = APEXES.iter().map(|s| s.to_string()).collect();
     for extra in ["www.example.", "c.a.b.example.", "www.c.a.b.example.", "w.d.c.a.b.example.", "a.example.", "z.y.x.example.", "down.in.other.", "in.other.", "w.deep.down.in.other.", "nothing.", "b.", "xexample."] {
